@@ -2,16 +2,27 @@
 C05 — parsing depends on instruction content only, not on layout, comments or case.
 
 Metamorphic pairs: a generated valid file in canonical layout (`a`) and the same instructions after ONE kind of
-layout transformation (`b`): continuation wraps at token boundaries, blanks, '!' comments (with and without '='
-inside), blank lines, indented comment lines, letter case of keywords / elements / atom names / residue classes.
+layout transformation (`b`): continuation wraps at token boundaries (1..k, tight, blanks behind the marker, continuation
+lines that carry only the marker), blanks, '!' comments (with and without '=' inside) on any physical line of an
+instruction that runs over one, two or more lines, blank lines, indented comment lines, letter case of keywords (all,
+some, those from HKLF on, the words of a DSR command) / elements / atom names / residue classes, and combinations
+(continued + other case + comment). The files contain every keyword of the dispatch chain, DSR commands (REM lines that
+are instructions), FRAG..FEND, RESI/PART/AFIX groups closed explicitly or left open up to HKLF, and what SHELXL writes
+behind HKLF (residual REM lines, END, suggested WGHT, Q-peaks).
+
+Order of exploration: (1) the witnesses of the Lean file, (2) a small systematic part - every instruction of the first
+files, one by one: keyword in another case x continued over up to three lines x a comment containing '=' on the first /
+a middle / the last physical line, (3) every kind at random on every file. A changed digest of a mirrored source file
+(ctx.escalated) roughly doubles (2) and (3) and adds every single-wrap position of a few files; quick stays in its time.
 
 Streams (DESIGN 3.2):
   pair    read_string(a) vs read_string(b), field by field (names and classes case-insensitively)   [property]
   lines   the implementation's logical lines (start index, tokens of Command/Restraint objects) of a and b
           vs model `modelLogicalLines` (correspondence) and vs spec `norm` (theorem glue_tokens; property)
   class   Residue.residue_number for a class suffix vs model `classNumbers keyNew` / spec `specClassNumbers`
-The spec itself is also checked on every pair: norm a = norm b (theorem layout_preserves_norm); a generated pair
-for which that fails means the generator left the domain -> harness error, never a violation.
+The spec itself is also checked on every pair: norm a = norm b (theorem layout_preserves_norm), for the kinds that change
+the letter case of more than the keyword: equal up to letter case (theorem case_invariance); a generated pair for which
+that fails means the generator left the domain -> harness error, never a violation.
 """
 import json
 
@@ -44,8 +55,30 @@ def num(rng, lo, hi, nd):
     return f'{rng.uniform(lo, hi):.{nd}f}'
 
 
+RESTRAINTS = ('DFIX', 'DANG', 'SADI', 'SAME', 'FLAT', 'CHIV', 'DELU', 'SIMU', 'RIGU', 'ISOR', 'NCSY', 'EADP', 'EXYZ')
+
+
+def dsr_command(rng, names, classes):
+    """REM DSR PUT|REPLACE fragment WITH atoms ON atoms/Q-peaks [PART n] [OCC sof] [RESI [class|number]] [DFIX] [SPLIT]
+    (a REM line that is an instruction: DSR commands are continued with '=' like any other instruction)"""
+    src = [rng.choice(['C', 'O', 'F']) + str(k + 1) for k in range(rng.randint(3, 5))]
+    tgt = rng.sample(names, min(len(names), len(src) - rng.choice([0, 1]))) + rng.sample(['Q1', 'Q4', 'Q7', 'Q12'], rng.choice([0, 1, 2]))
+    t = [('REM', 'kw'), ('DSR', 'kw2'), (rng.choice(['PUT', 'PUT', 'REPLACE']), 'kw2'), (rng.choice(['OC(CF3)3', 'TOLUENE', 'CF3', 'THF', 'PFANION']), None),
+         ('WITH', None)] + [(x, None) for x in src] + [('ON', None)] + [(x, None) for x in tgt]
+    if rng.random() < 0.7:
+        t += [('PART', None), (str(rng.choice([1, 2, -1])), None)]
+    if rng.random() < 0.7:
+        t += [('OCC', None), (rng.choice(['-21', '21', '-31', '0.5']), None)]
+    if rng.random() < 0.6:
+        t += [('RESI', None)] + ([(rng.choice(classes + ['7']), None)] if rng.random() < 0.6 else [])
+    t += [(x, None) for x in rng.sample(['DFIX', 'SPLIT'], rng.choice([0, 1, 1, 2]))]
+    return dict(kind='dsr', toks=t)
+
+
 def make_file(rng):
-    """a valid file; every restraint refers to existing atoms (restraint_errors == [])"""
+    """a valid file: header, instructions, FVAR, atoms in PART/AFIX/RESI groups (closed explicitly or left open up to HKLF, which
+    SHELXL accepts), HKLF, and behind it what SHELXL writes into a .res file: REM lines with the residuals, END, the suggested
+    WGHT, Q-peaks"""
     nel = rng.randint(2, 5)
     els = ['C'] + rng.sample([e for e in gen.ELEMENTS if e not in ('C', 'H')], nel - 1)
     if rng.random() < 0.6:
@@ -104,6 +137,7 @@ def make_file(rng):
 
     res0 = mk_atoms(rng.randint(4, 9))
     nres = rng.randint(1, 3)
+    used_r = set()
     for r in range(nres):
         used_r = set()
         names = []
@@ -123,6 +157,24 @@ def make_file(rng):
            dict(kind='rem', toks=[('REM', 'kw')] + [(w, None) for w in rng.sample(['free', 'text', 'R1', '0.0345', 'for', 'x-1'], 3)]),
            dict(kind='rem', toks=[('REM', 'kw'), ('a', None), ('=', None), ('b', None)])]
     f += rng.sample(opt, rng.randint(4, 10))
+    # every other keyword of the dispatch chain in one of its parameter forms (gen.instruction_forms: values distinct
+    # and non-default); bare SADI is left out (its observable is a line number), NEUT has a fixed place in the header
+    forms = [(kw, text) for kw, form, text in gen.instruction_forms(rng, free_names)
+             if kw not in ('NEUT', 'REM', 'HKLF') and text != 'SADI' and not (kw in ('ANIS', 'BIND') and form.startswith('num') and '+' not in form)]
+    for kw, text in rng.sample(forms, rng.randint(3, 7)):
+        tk = text.split()
+        f.append(dict(kind='restr' if kw in RESTRAINTS else 'other',
+                      toks=[(tk[0], 'kw')] + [(t, 'an' if t.split('_')[0] in free_names else None) for t in tk[1:]]))
+    # DSR commands: the one kind of REM line that is an instruction (may be continued)
+    for _ in range(rng.choice([0, 1, 1, 2])):
+        f.append(dsr_command(rng, free_names, classes))
+    if rng.random() < 0.2:
+        # FRAG ... FEND: the coordinate lines in between are not atoms of the structure
+        f.append(ins('FRAG', 17, *([num(rng, 5, 9, 3), num(rng, 5, 9, 3), num(rng, 5, 9, 3), 90, 90, 90] if rng.random() < 0.5 else [])))
+        for k in range(rng.randint(1, 4)):
+            f.append(dict(kind='fragatom', toks=[(f'{rng.choice(els).upper()}{k + 1}', None), (str(rng.randint(1, len(els))), None)] +
+                          [(num(rng, -3.5, 3.5, 5), None) for _ in range(3)]))
+        f.append(ins('FEND'))
 
     def pick(pool, k):
         return [an(x) for x in rng.sample(pool, min(k, len(pool)))]
@@ -153,7 +205,11 @@ def make_file(rng):
                 r = restraint(pool, '')
                 r['toks'] = [r['toks'][0]] + [(t + f'_{n}', role) if role == 'an' else (t, role) for t, role in r['toks'][1:]]
                 f.append(r)
-    f.append(ins('FVAR', *[num(rng, 0.1, 0.9, 5) for _ in range(nfv)]))
+    fv = [num(rng, 0.1, 0.9, 5) for _ in range(nfv)]
+    k = rng.randint(1, nfv - 1) if nfv >= 2 and rng.random() < 0.4 else nfv      # the free variables may come in several FVAR instructions
+    f.append(ins('FVAR', *fv[:k]))
+    if fv[k:]:
+        f.append(ins('FVAR', *fv[k:]))
 
     def atom(name, s, sof='11.00000'):
         aniso = rng.random() < 0.5
@@ -185,9 +241,51 @@ def make_file(rng):
                       ([(str(100 + n), None)] if rng.random() < 0.3 else [])))
         for name, s in names:
             f.append(atom(name, s))
-    f.append(ins('RESI', 0))
-    f.append(ins('HKLF', 4))
-    f.append(ins('END'))
+    # the end of the atom list: any of RESI / PART / AFIX may still be open when HKLF is reached
+    still_open = rng.sample(['resi', 'part', 'afix'], rng.choice([0, 0, 1, 1, 2, 3]))
+    tail_used = used_r if 'resi' in still_open else used      # names are unique within a residue
+    if 'resi' not in still_open:
+        f.append(ins('RESI', 0))
+
+    def tail_atoms(k, sof, hydrogens=False):
+        for _ in range(k):
+            s = (els.index('H') + 1) if hydrogens and 'H' in els else rng.randrange(len(els)) + 1
+            f.append(atom(gen.atom_name(rng, els[s - 1], tail_used), s, sof=sof))
+
+    sof = '11.00000'
+    if 'part' in still_open:
+        pn = rng.choice([1, 2, 3, -1, -2])
+        code = 10 * rng.randint(2, nfv) + 1 if nfv >= 2 else 11
+        sof = f'{rng.choice([1, -1]) * code:.5f}' if nfv >= 2 else '10.50000'
+        f.append(ins('PART', pn, *([sof] if rng.random() < 0.5 else [])))
+        tail_atoms(rng.randint(1, 3), sof)
+    if 'afix' in still_open:
+        f.append(ins('AFIX', rng.choice([137, 43, 23, 66, 33]), *([num(rng, 0.9, 1.1, 2)] if rng.random() < 0.2 else [])))
+        tail_atoms(rng.randint(1, 3), sof, hydrogens=True)
+    f[0]['open'] = sorted(still_open)
+    m = '0 1 0 -1 0 0 0 0 1'.split()
+    f.append(ins('HKLF', *rng.choice([[4], [4], [5], [4, 1], [5, 0.5], [4, 0.7] + m, [4, 1] + m + [1.5, 3]])))
+    # behind HKLF: what SHELXL writes into the .res file
+    name = rng.choice(['verif', 'sample', 'x17', 'run_3'])
+    r1, r1all, wr2, goof, rgoof = (num(rng, 0.02, 0.09, 4), num(rng, 0.03, 0.12, 4), num(rng, 0.05, 0.3, 4), num(rng, 0.8, 1.3, 3), num(rng, 0.8, 1.3, 3))
+    npar, nres_, nobs, ndata = rng.randint(50, 900), rng.randint(0, 400), rng.randint(1000, 5000), rng.randint(5001, 9000)
+    stats = [f'REM {name} in P2(1)/c', f'REM wR2 = {wr2}, GooF = S = {goof}, Restrained GooF = {rgoof} for all data',
+             f'REM R1 = {r1} for {nobs} Fo > 4sig(Fo) and {r1all} for all {ndata} data',
+             f'REM {npar} parameters refined using {nres_} restraints']
+    for t in stats:
+        if rng.random() < 0.6:
+            f.append(dict(kind='rem', toks=[('REM', 'kw')] + [(w, None) for w in t.split()[1:]]))
+    has_end = rng.random() < 0.8
+    if has_end:
+        f.append(ins('END'))
+    if rng.random() < 0.7:
+        f.append(ins('WGHT', num(rng, 0.01, 0.2, 4), num(rng, 0, 3, 4)))
+    if rng.random() < 0.5:
+        f.append(dict(kind='rem', toks=[('REM', 'kw')] + [(w, None) for w in
+                      f'Highest difference peak {num(rng, 0.1, 2, 3)}, deepest hole -{num(rng, 0.1, 2, 3)}, 1-sigma level {num(rng, 0.01, 0.2, 3)}'.split()]))
+    for k in range(rng.choice([0, 1, 2, 3, 5])):
+        f.append(dict(kind='qpeak', toks=[(f'Q{k + 1}', 'an'), ('1', None)] + [(num(rng, -0.2, 1.2, 4), None) for _ in range(3)] +
+                      [('11.00000', None), ('0.05', None), (num(rng, 0.1, 2.5, 2), None)]))
     return f
 
 
@@ -206,6 +304,9 @@ def render(layout, extras=None):
         for e in (extras or {}).get(k, []):
             out.append(e)
         toks = ly['toks']
+        if len(ly) == 1:                       # canonical layout: one blank between tokens
+            out.append(' '.join(toks))
+            continue
         wraps = ly.get('wraps', {})
         sep = ly.get('sep', {})
         phys = ['']
@@ -215,7 +316,10 @@ def render(layout, extras=None):
                 break
             w = wraps.get(j) or wraps.get(str(j))
             if w:
-                phys[-1] += ('' if w[0] else ' ' * int(sep.get(j, sep.get(str(j), 1)))) + '='
+                # w = (tight, indent of the continuation line[, blanks behind '='[, continuation lines that carry only '=']])
+                phys[-1] += ('' if w[0] else ' ' * int(sep.get(j, sep.get(str(j), 1)))) + '=' + ' ' * (int(w[2]) if len(w) > 2 else 0)
+                for _ in range(int(w[3]) if len(w) > 3 else 0):
+                    phys.append(' ' * max(1, int(w[1])) + '=')
                 phys.append(' ' * max(1, int(w[1])))
             else:
                 phys[-1] += ' ' * int(sep.get(j, sep.get(str(j), 1)))
@@ -239,7 +343,25 @@ def swapcase_some(rng, s, mode):
 
 
 COMMENTS = [' ! note', '  !comment text', ' ! C-H 0.95', '!x']
-COMMENTS_EQ = [' ! U = big', ' ! a=b', ' !=', ' ! trailing =']
+COMMENTS_EQ = [' ! U = big', ' ! a=b', ' !=', ' ! trailing =', ' ! d=1.33, s=0.02 ! (CSD)', '  != !']
+
+
+MODES = ['lower', 'title', 'mixed']
+
+
+def recase_kw(rng, f, ly, i, mode):
+    """keyword of instruction i (a residue suffix keeps its spelling) and, for a DSR command, the words DSR and PUT/REPLACE"""
+    hit = 0
+    for j, (t, r) in enumerate(f[i]['toks']):
+        if r == 'kw':
+            a, _, b = t.partition('_')
+            ly[i]['toks'][j] = swapcase_some(rng, a, mode) + (('_' + b) if b else '')
+        elif r == 'kw2':
+            ly[i]['toks'][j] = swapcase_some(rng, t, mode)
+        else:
+            continue
+        hit += ly[i]['toks'][j] != t
+    return hit
 
 
 def transform(rng, f, kind, where=None):
@@ -247,12 +369,13 @@ def transform(rng, f, kind, where=None):
     ly = canon(f)
     extras = {}
     n = len(f)
-    wrappable = [i for i in range(n) if f[i]['kind'] not in ('titl', 'rem') and len(f[i]['toks']) > 1]
+    wrappable = [i for i in range(n) if f[i]['kind'] not in ('titl', 'rem') and len(f[i]['toks']) > (3 if f[i]['kind'] == 'dsr' else 1)]
     anyline = list(range(n))
     detail = {}
 
     def bounds(i):
-        return list(range(len(f[i]['toks']) - 1))
+        # a DSR command is a REM line up to and including PUT/REPLACE: 'REM DSR =' is free text that ends in '='
+        return list(range(2 if f[i]['kind'] == 'dsr' else 0, len(f[i]['toks']) - 1))
 
     if kind in ('wrap1', 'wrap-tight'):
         i, j = where if where else (lambda i: (i, rng.choice(bounds(i))))(rng.choice(wrappable))
@@ -261,7 +384,12 @@ def transform(rng, f, kind, where=None):
     elif kind == 'wrapk':
         for i in rng.sample(wrappable, rng.randint(1, min(6, len(wrappable)))):
             b = bounds(i)
-            ly[i]['wraps'] = {j: (False, rng.randint(1, 8)) for j in rng.sample(b, rng.randint(1, min(4, len(b))))}
+            ly[i]['wraps'] = {j: (False, rng.randint(1, 8), rng.choice([0, 0, 1, 3])) for j in rng.sample(b, rng.randint(1, min(4, len(b))))}
+    elif kind == 'wrap-empty':
+        # continuation lines that carry nothing but the marker
+        for i in rng.sample(wrappable, rng.randint(1, min(3, len(wrappable)))):
+            b = bounds(i)
+            ly[i]['wraps'] = {j: (False, rng.randint(1, 8), rng.choice([0, 0, 2]), rng.choice([1, 1, 2])) for j in rng.sample(b, rng.randint(1, min(2, len(b))))}
         detail = dict(n=sum(len(x.get('wraps', {})) for x in ly))
     elif kind == 'blanks':
         for i in rng.sample(wrappable, rng.randint(1, len(wrappable))):
@@ -280,8 +408,75 @@ def transform(rng, f, kind, where=None):
         i = rng.choice(wrappable)
         j = rng.choice(bounds(i))
         ly[i]['wraps'] = {j: (False, rng.randint(1, 6))}
-        ly[i]['comment'] = {rng.choice([0, 1]) if kind == 'comment-on-wrap' else 0: rng.choice(pool)}
+        ly[i]['comment'] = {rng.choice([0, 0, 1]): rng.choice(pool)}
         detail = dict(instr=f[i]['toks'][0][0], boundary=j)
+    elif kind in ('comment-multi', 'comment=-multi'):
+        # an instruction over three or more physical lines, comments on any of them - always on a line that is
+        # continuation line and continued line at once
+        pool = COMMENTS if kind == 'comment-multi' else COMMENTS_EQ
+        cand = [i for i in wrappable if len(bounds(i)) >= 2]
+        if not cand:
+            return None
+        i = rng.choice(cand)
+        b = bounds(i)
+        k = rng.randint(2, min(4, len(b)))
+        ly[i]['wraps'] = {j: (rng.random() < 0.15, rng.randint(1, 6)) for j in rng.sample(b, k)}
+        lines = set(rng.sample(range(k + 1), rng.randint(0, k))) | {rng.randint(1, k - 1)}
+        ly[i]['comment'] = {p: rng.choice(pool) for p in sorted(lines)}
+        detail = dict(instr=f[i]['toks'][0][0], wraps=k, commented=sorted(lines))
+    elif kind == 'wrap+case':
+        # continued instructions whose keyword is not in capitals
+        for i in rng.sample(wrappable, rng.randint(1, min(6, len(wrappable)))):
+            b = bounds(i)
+            ly[i]['wraps'] = {j: (rng.random() < 0.15, rng.randint(1, 8)) for j in rng.sample(b, rng.randint(1, min(3, len(b))))}
+            recase_kw(rng, f, ly, i, rng.choice(MODES))
+        detail = dict(n=sum(len(x.get('wraps', {})) for x in ly))
+    elif kind == 'case-kw-some':
+        # some keywords only, each in a spelling of its own
+        hit = 0
+        for i in rng.sample(anyline, rng.randint(1, max(1, n // 3))):
+            hit += recase_kw(rng, f, ly, i, rng.choice(MODES))
+        if not hit:
+            return None
+    elif kind == 'case-tail':
+        # the keywords from HKLF on (HKLF, REM, END, WGHT): where SHELXL stops reading and its own output begins
+        k0 = next(k for k in range(n) if f[k]['toks'][0][0] == 'HKLF')
+        mode = rng.choice(MODES)
+        for i in range(k0, n):
+            recase_kw(rng, f, ly, i, mode if rng.random() < 0.8 else rng.choice(MODES))
+        detail = dict(mode=mode, open=f[0].get('open'))
+    elif kind == 'dsr-forms':
+        # everything at once on the DSR commands: case of REM / DSR / PUT|REPLACE, wraps, blanks, comments
+        hit = 0
+        for i in range(n):
+            if f[i]['kind'] != 'dsr':
+                continue
+            hit += 1
+            b = bounds(i)
+            if rng.random() < 0.85:
+                recase_kw(rng, f, ly, i, rng.choice(MODES))
+            k = rng.choice([0, 1, 1, 2, 3])
+            ly[i]['wraps'] = {j: (rng.random() < 0.15, rng.randint(1, 6)) for j in rng.sample(b, min(k, len(b)))}
+            if rng.random() < 0.4:
+                ly[i]['sep'] = {j: rng.randint(1, 3) for j in range(len(f[i]['toks']) - 1)}
+            if rng.random() < 0.4:
+                ly[i]['comment'] = {rng.randint(0, len(ly[i]['wraps'])): rng.choice(COMMENTS + COMMENTS_EQ)}
+        if not hit:
+            return None
+    elif kind == 'one-instr':
+        # systematic part: instruction i with its keyword in another case, continued over up to three lines, with a
+        # comment that contains '=' on the first, a middle or the last of them
+        i, v = where
+        mode = MODES[v % 3]
+        recase_kw(rng, f, ly, i, mode)
+        k = 0
+        if i in wrappable:
+            b = bounds(i)
+            k = min(len(b), 2)
+            ly[i]['wraps'] = {j: (rng.random() < 0.15, rng.randint(1, 6)) for j in rng.sample(b, k)}
+        p = [0, k // 2 + k % 2, k][(v // 3) % 3] if k else 0          # k = 2: line 0, 1, 2; k = 1: 0, 1, 1
+        ly[i]['comment'] = {p: rng.choice(COMMENTS_EQ if f[i]['kind'] != 'titl' else COMMENTS)}
+        detail = dict(instr=f[i]['toks'][0][0], mode=mode, wraps=k, commented=p)
     elif kind == 'blankline':
         for k in rng.sample(range(n + 1), rng.randint(1, 5)):
             extras[k] = [rng.choice(['', ' ', '      '])] * rng.randint(1, 2)
@@ -290,14 +485,14 @@ def transform(rng, f, kind, where=None):
             extras[k] = [rng.choice(['  some text', ' ! remark', '    C99 1 0.1 0.2 0.3 11.0 0.05', ' DFIX 1.5 C1 C2'] if kind == 'commentline'
                                     else ['  x = y', ' ! a = b', '   ends with ='])]
     elif kind.startswith('case-'):
-        role = dict(kw='kw', elem='el', atom='an', ratom='an', resi='cls', suffix='kw', **{'rem=': 'kw'})[kind[5:]]
+        role = dict(kw='kw', elem='el', atom='an', ratom='an', resi='cls', suffix='kw', dsr='kw2', **{'rem=': 'kw'})[kind[5:]]
         mode = rng.choice(['lower', 'title', 'mixed', 'upper'])
         hit = 0
         for i in range(n):
             k = f[i]['kind']
-            if kind == 'case-atom' and k != 'atom':
+            if kind == 'case-atom' and k not in ('atom', 'qpeak'):
                 continue
-            if kind == 'case-ratom' and k == 'atom':
+            if kind == 'case-ratom' and k in ('atom', 'qpeak'):
                 continue
             if kind == 'case-rem=' and k != 'rem':
                 continue
@@ -356,11 +551,9 @@ def transform(rng, f, kind, where=None):
             ly[i]['sep'] = {j: rng.randint(1, 4) for j in b}
             ly[i]['trail'] = rng.choice([0, 0, 2])
             if rng.random() < 0.3:
-                ly[i]['comment'] = {rng.randint(0, len(ly[i].get('wraps', {}))): rng.choice(COMMENTS)}
+                ly[i]['comment'] = {rng.randint(0, len(ly[i].get('wraps', {}))): rng.choice(COMMENTS + COMMENTS_EQ)}
             if rng.random() < 0.5:
-                t = ly[i]['toks'][0]
-                a, _, bb = t.partition('_')
-                ly[i]['toks'][0] = swapcase_some(rng, a, 'mixed') + (('_' + bb) if bb else '')
+                recase_kw(rng, f, ly, i, 'mixed')
             for j, (t, r) in enumerate(f[i]['toks']):
                 if r in ('an', 'el') and rng.random() < 0.3:
                     ly[i]['toks'][j] = swapcase_some(rng, t, 'mixed')
@@ -494,10 +687,32 @@ def observe(lines, elements=None):
             o['atom_an'].append(a.an)
         except Exception as ex:
             o['atom_an'].append(type(ex).__name__)
+    # case-insensitive atom lookup: every atom is found under its full name in capitals and in lower case, and is itself
+    pos = {id(a): k for k, a in enumerate(shx.atoms)}
+    look = []
+    for a in shx.atoms:
+        row = []
+        for q in (a.fullname.upper(), a.fullname.lower()):
+            try:
+                row += [pos.get(id(shx.atoms.get_atom_by_name(q)), -1), bool(shx.atoms.has_atom(q))]
+            except Exception as ex:
+                row.append(type(ex).__name__)
+        look.append(row)
+    o['atom_lookup'] = look
     o['unit'] = [fl(x) for x in shx.unit.values] if getattr(shx, 'unit', None) else None
     o['fvars'] = [fl(x) for x in shx.fvars.as_stringlist] if hasattr(shx.fvars, 'as_stringlist') else [fl(v.fvar_value) for v in shx.fvars.fvars]
     o['symm'] = len(shx.symmcards._symmcards) if hasattr(shx.symmcards, '_symmcards') else None
-    o['counts'] = dict(hfix=len(shx.hfixes), bind=len(shx.bind), free=len(shx.free), rtab=len(shx.rtab), omit=[[str(t) for t in x] for x in shx.omit],
+    # what the REM lines carry: DSR commands and the residuals SHELXL writes behind HKLF
+    o['dsr'] = [str(x).upper().split() for x in shx.dsrlines]
+    o['residuals'] = {k: (fl(getattr(shx, k, None)) if not isinstance(getattr(shx, k, None), str) else getattr(shx, k).upper())
+                      for k in ('R1', 'wr2', 'goof', 'rgoof', 'data', 'parameters', 'dat_to_param', 'num_restraints', 'highest_peak',
+                                'deepest_hole', 'space_group') if getattr(shx, k, None) is not None}
+    ws = getattr(shx, 'wght_suggested', None)
+    o['tail'] = dict(wght_suggested=[fl(ws.a), fl(ws.b)] if ws else None,
+                     hklf=[fl(getattr(shx.hklf, k, None)) for k in ('n', 's', 'sm', 'm')] + [fl(x) for x in (getattr(shx.hklf, 'matrix', None) or [])]
+                     if shx.hklf else None, frag=bool(getattr(shx, 'frag', None)),
+                     peaks=[fl(getattr(a, 'peak_height', None)) for a in shx.atoms if a.qpeak])
+    o['counts'] = dict(hfix=len(shx.hfixes), bind=len(shx.bind), free=len(shx.free), rtab=len(shx.rtab), omit=[[str(t).upper() for t in x] for x in shx.omit],
                        eqiv=[[str(t).upper() for t in x] for x in shx.eqiv], residues=sorted(shx.residues.residue_numbers.keys()))
     return o
 
@@ -516,7 +731,7 @@ def same(a, b):
 
 
 FIELDS = ['atoms', 'restraints', 'restraint_errors_empty', 'n_rem', 'titl_raw', 'scalars', 'cell', 'sfac', 'elem_lookup', 'sfac_iter', 'sfac_byindex', 'sfac_coeff', 'sum_exact',
-          'sum_formula', 'sum_formula_exact', 'disp', 'atom_an', 'unit', 'fvars', 'symm', 'counts']
+          'sum_formula', 'sum_formula_exact', 'disp', 'atom_an', 'atom_lookup', 'unit', 'fvars', 'symm', 'counts', 'dsr', 'residuals', 'tail']
 
 
 def upper_objs(o):
@@ -529,7 +744,7 @@ def first_diff(oa, ob):
     if len(oa['starts']) != len(ob['starts']):
         return 'logical-lines'
     for k in FIELDS:
-        if not same(oa[k], ob[k]):
+        if oa[k] != ob[k] and not same(oa[k], ob[k]):
             return k
     if upper_objs(oa) != upper_objs(ob):
         return 'instruction-tokens'
@@ -542,21 +757,35 @@ def evaluate(ctx, cases, stream=None):
     ctx.stream('pair')
     ctx.stream('lines')
     ctx.stream('class')
-    reqs = []
+    # the canonical text `a` is shared by all pairs of one file: it is sent to the driver and observed once per run of pairs
+    reqs, slot = [], {}
     for c in cases:
-        reqs.append(dict(p='C05', op='lines', lines=c['a']))
-        reqs.append(dict(p='C05', op='lines', lines=c['b']))
+        for side in ('a', 'b'):
+            k = tuple(c[side])
+            if k not in slot:
+                slot[k] = len(reqs)
+                reqs.append(dict(p='C05', op='lines', lines=c[side]))
     ans = ctx.driver.batch(reqs)
+    seen = {}
+
+    def obs(lines, elements):
+        k = (tuple(lines), tuple(elements or ()))
+        if k not in seen:
+            if len(seen) > 8:
+                seen.clear()
+            seen[k] = observe(lines, elements)
+        return seen[k]
+
     for ci, c in enumerate(cases):
         kind = c['kind']
-        ra, rb = ans[2 * ci], ans[2 * ci + 1]
-        oa, ob = observe(c['a'], c.get('elements')), observe(c['b'], c.get('elements'))
+        ra, rb = ans[slot[tuple(c['a'])]], ans[slot[tuple(c['b'])]]
+        oa, ob = obs(c['a'], c.get('elements')), observe(c['b'], c.get('elements'))
         key = [kind, c['a'], c['b']]
         tags = ['kind=' + kind] + (['instr=' + c['detail']['instr'][:4].upper()] if c.get('detail', {}).get('instr') else [])
         ctx.count(key, nontrivial=c['a'] != c['b'], tags=tags,
                   sample=dict(kind=kind, detail=c.get('detail'), b=[x for x, y in zip(c['b'], c['a'] + [''] * len(c['b'])) if x != y][:3]))
         # the generator must stay inside the domain of the theorems: both layouts valid, same normal form
-        ci = kind.startswith('case-') and kind not in ('case-kw', 'case-rem=') or kind in ('mixed', 'sfac-forms')
+        ci = kind.startswith('case-') and kind not in ('case-kw', 'case-rem=') or kind in ('mixed', 'sfac-forms', 'wrap+case', 'dsr-forms', 'one-instr')
         up = (lambda n: [[t.upper() for t in l] for l in n]) if ci else (lambda n: n)
         if ra['spec'] is None or rb['spec'] is None or up(ra['spec']) != up(rb['spec']):
             if c.get('expect_spec_equal', True):
@@ -649,9 +878,9 @@ def class_lookup_impl(q):
     return sorted(shx.restraints[0].residue_number)
 
 
-KINDS = ['sfac-forms', 'wrap1', 'wrap-tight', 'wrapk', 'blanks', 'blanks-titl', 'comment', 'comment=', 'comment-on-wrap', 'comment=-on-wrap',
-         'blankline', 'commentline', 'commentline=', 'case-kw', 'case-rem=', 'case-elem', 'case-atom', 'case-ratom', 'case-resi',
-         'case-suffix', 'mixed']
+KINDS = ['sfac-forms', 'wrap1', 'wrap-tight', 'wrapk', 'wrap-empty', 'blanks', 'blanks-titl', 'comment', 'comment=', 'comment-on-wrap', 'comment=-on-wrap',
+         'comment-multi', 'comment=-multi', 'blankline', 'commentline', 'commentline=', 'case-kw', 'case-kw-some', 'case-tail', 'case-dsr',
+         'case-rem=', 'case-elem', 'case-atom', 'case-ratom', 'case-resi', 'case-suffix', 'wrap+case', 'dsr-forms', 'mixed']
 
 
 def make_case(rng, f, kind, where=None):
@@ -662,7 +891,11 @@ def make_case(rng, f, kind, where=None):
     a_extras = {}
     if kind == 'case-rem=':
         a_extras = {k: [x.replace('rem', 'REM', 1) for x in v] for k, v in extras.items()}
-    c = dict(kind=kind, detail=detail, a=render(canon(f), a_extras), b=render(ly, extras), elements=f[0].get('elements'))
+    if a_extras:
+        a = render(canon(f), a_extras)
+    else:
+        a = f[0].get('_a') or f[0].setdefault('_a', render(canon(f)))
+    c = dict(kind=kind, detail=detail, a=a, b=render(ly, extras), elements=f[0].get('elements'))
     return c
 
 
@@ -676,36 +909,55 @@ def class_queries(rng):
 
 
 def run(ctx):
-    ctx.rule = ('pairs (canonical text, transformed text) of generated valid files (header, 4-10 of 25 instruction kinds, 2-9 restraints of 12 '
-                'kinds incl. class/number suffixes, FVAR, iso/aniso atoms in PART/AFIX/RESI blocks); one transformation kind per pair '
-                '(20 kinds, see KINDS) or all valid ones mixed; distinct by (kind, both texts); non-trivial = the two texts differ')
+    ctx.rule = ('pairs (canonical text, transformed text) of generated valid files (header with every SFAC form, 7-17 instructions out of '
+                'every keyword of the dispatch chain in its parameter forms, DSR commands, FRAG..FEND, 2-9 restraints of 12 kinds incl. '
+                'class/number suffixes, FVAR, iso/aniso atoms in PART/AFIX/RESI groups that are closed or still open at HKLF, HKLF forms, '
+                'residual REM lines, END, suggested WGHT, Q-peaks); one transformation kind per pair (29 kinds, see KINDS) or all valid ones '
+                'mixed; first a systematic part: every instruction of the first files with its keyword in another case, continued over up '
+                'to three lines, a comment containing "=" on the first/middle/last of them; distinct by (kind, both texts); non-trivial = '
+                'the two texts differ')
     ctx.assumptions = ['continuation lines are indented by at least one blank (SHELXL rule; `norm` returns none otherwise)',
-                       'blanks are the only white space; TITL/REM text is free text: not wrapped, inner blanks not changed',
+                       'blanks are the only white space; TITL/REM text is free text: not wrapped, inner blanks not changed; a DSR command '
+                       '(REM DSR PUT|REPLACE ...) is an instruction and may be continued behind PUT|REPLACE',
                        'ASCII text (str.upper modelled by Char.toUpper)']
     rng = ctx.rng
     cases = []
     for kind, a, b in WITNESSES:
         cases.append(dict(kind=kind, detail=dict(witness=True), a=a, b=b, expect_spec_equal=True))
-    nfiles = ctx.budget(40, 150)
-    per_kind = ctx.budget(2, 4)
-    for fi in range(nfiles):
-        f = make_file(rng)
+    # budgets. A changed digest of a mirrored source file (ctx.escalated; the digests are per FILE, so nearly every edit of the
+    # repository sets it) gets about twice the quick exploration, not the thorough one: quick has to stay within its time
+    thorough = ctx.tier == 'thorough'
+    esc = ctx.escalated and not thorough
+    nfiles = 150 if thorough else 70 if esc else 40
+    per_kind = 4 if thorough else 2
+    nsys = 40 if thorough else 10 if esc else 5           # files whose instructions are enumerated one by one
+    nexh = 40 if thorough else 3 if esc else 0            # files with every single-wrap position
+    files = [make_file(rng) for _ in range(nfiles)]
+    # 1. systematic, small: instruction by instruction
+    for fi, f in enumerate(files[:nsys]):
+        for i in range(len(f)):
+            c = make_case(rng, f, 'one-instr', (i, i + fi))
+            if c:
+                cases.append(c)
+    # 2. random: every kind on every file
+    for fi, f in enumerate(files):
         for kind in KINDS:
             for _ in range(per_kind if kind not in ('blanks-titl',) else 1):
                 c = make_case(rng, f, kind)
                 if c:
                     cases.append(c)
         cases[-1]['class_queries'] = class_queries(rng)
-        if (ctx.tier == 'thorough' or ctx.escalated) and fi < 40:
+        if fi < nexh:
             # every single-wrap position of every instruction of the file
             for i, instr in enumerate(f):
                 if instr['kind'] in ('titl', 'rem'):
                     continue
-                for j in range(len(instr['toks']) - 1):
+                for j in range(2 if instr['kind'] == 'dsr' else 0, len(instr['toks']) - 1):
                     cases.append(make_case(rng, f, 'wrap1', (i, j)))
             for i in range(len(f)):
                 cases.append(make_case(rng, f, 'comment=', i))
-    if ctx.tier == 'thorough' or ctx.escalated:
-        ctx.extra['exhaustive_part'] = 'every single-wrap position and a "=" comment on every instruction of the first 40 files'
+    if nexh:
+        ctx.extra['exhaustive_part'] = f'every single-wrap position and a "=" comment on every instruction of the first {nexh} files'
+    ctx.extra['systematic_part'] = f'every instruction of the first {nsys} files: keyword case x up to 2 wraps x "=" comment per physical line'
     for i in range(0, len(cases), 200):
         evaluate(ctx, cases[i:i + 200])
